@@ -22,6 +22,11 @@ class Snssai(Stream):
         cs = [{"sst": s, "sd": "", "wf": True} for s in range(256)]
         for i in range(500 if tier == "quick" else 20000):
             cs.append({"sst": rng.below(256), "sd": rng.bytes(3).hex(), "wf": True})
+        # reserved-looking values of the slice differentiator (all ones = "no SD associated" in TS 23.003, all zeros,
+        # single set/cleared bits): they are ordinary values for the conversion
+        for sd in ["000000", "ffffff", "fffffe", "7fffff", "800000", "000001", "0000ff", "00ff00", "ff0000", "fffff0", "0fffff"]:
+            for sst in [0, 1, 255, rng.below(256)]:
+                cs.append({"sst": sst, "sd": sd, "wf": True})
         for i in range(60):   # malformed / out-of-range stream
             cs.append({"sst": rng.choice([-1, 256, 300, 2**31 - 1, -2**31, rng.below(256)]),
                        "sd": rng.choice(["", "01020", "zz0102", "0102", "01020304", "ABCDEF", "abCDef0"]), "wf": False})
